@@ -20,6 +20,7 @@ RULE = (
     "Distinct = canonical JSON of the history; non-trivial = at least one stage is not a plain return."
 )
 REQUIRED = {
+    "mon:rerun.clean-run-after-a-timed-out-one": 50,
     "mon:exactly-one-outcome-in-bracket": 1000,
     "mon:success-iff-clean": 1000,
     "mon:next-stage-only-after-deferred-fired": 500,
